@@ -249,16 +249,56 @@ def _expected(outcomes, verb, methods, index):
     return acc
 
 
-def _diagnose(case, regs, path, extra):
+def _marker_scans(rule, path):
+    """Model of defect D11 (only used to LABEL failures): value lists of the complete scans of `rule` over `path`
+    in which at least one CR standing where a wildcard begins was eaten as one character without recording
+    a value (every other step as in the reference scan)."""
+    p = S.norm(path)
+    found = []
+
+    def go(k, i, values, used, first):
+        if k == len(rule):
+            if i == len(p) and used:
+                found.append(values)
+            return
+        seg = rule[k]
+        if S.is_lit(seg):
+            text = seg[1][1:] if first else seg[1]
+            if p[i:i + len(text)] == text:
+                go(k + 1, i + len(text), values, used, False)
+            return
+        if i >= len(p):
+            return
+        if p[i] == '\r':
+            go(k + 1, i + 1, values, True, False)
+        nxt = rule[k + 1][1] if k + 1 < len(rule) else ''
+        got = S._take(seg, nxt, p[i:])
+        if got is not None:
+            go(k + 1, i + len(got[0]), values + [got[1]], used, False)
+    go(0, 0, [], False, True)
+    return found
+
+
+def _diagnose(case, regs, index, path, obs, extra):
     """Facts about the failing input the FINDINGS recognisers look at (computed on failure only)."""
     p = S.norm(path)
     extra['cr_at_wildcard_start'] = any(p[i] == '\r' for r in regs for i in S.wildcard_starts(r, path))
+    explained = False
+    if extra['cr_at_wildcard_start'] and obs[0] == 'ok' and obs[1] in index:
+        own = regs[index.index(obs[1])]
+        mates = [r for r in regs if S.same_route(r, own)]
+        for values in _marker_scans(own, path):
+            for mate in mates:
+                alt = {nm: v for nm, v in zip(S.wild_names(mate), values) if nm is not None}
+                if C.same_params(obs[2], alt):
+                    explained = True
+    extra['explained_by_cr_eaten_as_marker'] = explained
     return extra
 
 
 def _compare(level, obs, acc, case, regs, index, path, verb):
     def out(clause, **kw):
-        kw = _diagnose(case, regs, path, kw)
+        kw = _diagnose(case, regs, index, path, obs, kw)
         exp = [a[:3] if a[0] == 'ok' else a for a in acc]
         return fail(level + '.' + clause, path=path, verb=verb, expected=exp, observed=list(obs), **kw)
     if obs[0] == 'exc':
@@ -276,16 +316,13 @@ def _compare(level, obs, acc, case, regs, index, path, verb):
         if obs[0] == 'ok' and obs[1] == a[1]:
             if C.same_params(obs[2], a[2]):
                 return None
-            # right handler, wrong keyword arguments: do they carry the names of another rule of the route?
+            # right handler, wrong keyword arguments: do they carry the names of the rule registered first on the pattern?
             sibling = None
-            for idx, _m in a[3]:
-                if index[idx] == a[1]:
-                    continue
-                names = S.wild_names(regs[idx])
-                alt = {nm: v for nm, v in zip(names, a[4]['values']) if nm is not None}
+            first = min(idx for idx, _m in a[3])
+            if index[first] != a[1]:
+                alt = {nm: v for nm, v in zip(S.wild_names(regs[first]), a[4]['values']) if nm is not None}
                 if C.same_params(obs[2], alt):
-                    sibling = index[idx]
-                    break
+                    sibling = index[first]
             kwargs_failure = dict(names_of_rule=sibling)
     if kwargs_failure is not None:
         return out('kwargs', **kwargs_failure)
@@ -352,8 +389,10 @@ def _sibling_names(case, failure):
 
 def _cr_marker(case, failure):
     """D11: a CR in the request path, sitting exactly where a wildcard of some registered rule begins, is
-    consumed as the internal wildcard marker (no value is recorded for that wildcard)."""
-    return (failure.get('clause', '').startswith(('K1.', 'K2.')) and failure.get('cr_at_wildcard_start') is True
+    consumed as the internal wildcard marker: a handler runs with the values of a scan that skipped that CR
+    without recording a value for the wildcard."""
+    return (failure.get('clause', '').split('.')[-1] in ('kwargs', 'route', 'spurious')
+            and failure.get('cr_at_wildcard_start') is True and failure.get('explained_by_cr_eaten_as_marker') is True
             and not _sibling_names(case, failure))
 
 
